@@ -37,7 +37,13 @@ type HookStore struct {
 	openWrites int
 	Calls      []string
 	Record     bool
+	afterRead  func(logID string)
 }
+
+// SetAfterRead installs (or clears) a callback run after a reader's GetLatest has fetched its value and
+// before it returns: a pause point for holding one read open while other requests run. It is not a fault
+// position and does not appear in the call log.
+func (s *HookStore) SetAfterRead(f func(logID string)) { s.mu.Lock(); s.afterRead = f; s.mu.Unlock() }
 
 func NewHookStore(inner persistence.LogStatePersistence) *HookStore { return &HookStore{Inner: inner} }
 
@@ -109,7 +115,14 @@ func (r *hookReader) GetLatest() ([]byte, error) {
 	if err := r.s.call(OpRGet, r.id); err != nil {
 		return nil, err
 	}
-	return r.r.GetLatest()
+	b, err := r.r.GetLatest()
+	r.s.mu.Lock()
+	f := r.s.afterRead
+	r.s.mu.Unlock()
+	if f != nil {
+		f(r.id)
+	}
+	return b, err
 }
 
 type hookWriter struct {
